@@ -23,7 +23,7 @@ from . import ratfun
 
 VERIF = os.path.dirname(os.path.dirname(os.path.abspath(__file__)))
 REPO = os.environ.get('VERIF_REPO', '/repo')
-CACHE = os.path.join(VERIF, '.cache')
+CACHE = os.environ.get('VERIF_CACHE') or os.path.join(VERIF, '.cache')
 ENV = dict(os.environ, CARGO_NET_OFFLINE='true')
 
 
@@ -387,14 +387,16 @@ def model_value(model, term):
 REPLAY_DIR = os.path.join(VERIF, 'replay')
 
 
-def replay_bin(profile='debug'):
-    tgt = os.path.join(CACHE, 'target-replay')
+def replay_bin(profile='debug', backend='ibig'):
+    tgt = os.path.join(CACHE, 'target-replay' if backend == 'ibig' else 'target-replay-%s' % backend)
     lock_src = os.path.join(REPO, 'Cargo.lock')
     lock_dst = os.path.join(REPLAY_DIR, 'Cargo.lock')
     if os.path.exists(lock_src) and not os.path.exists(lock_dst):
         import shutil
         shutil.copy(lock_src, lock_dst)
     cmd = ['cargo', 'build', '--offline', '--target-dir', tgt]
+    if backend != 'ibig':
+        cmd += ['--no-default-features', '--features', 'backend-' + backend]
     if profile == 'release':
         cmd.append('--release')
     p = subprocess.run(cmd, cwd=REPLAY_DIR, env=ENV, capture_output=True, text=True)
@@ -403,9 +405,9 @@ def replay_bin(profile='debug'):
     return os.path.join(tgt, profile, 'vreplay')
 
 
-def native(lines, profile='debug'):
+def native(lines, profile='debug', backend='ibig'):
     """run command lines through the native replay binary; returns list of token lists"""
-    b = replay_bin(profile)
+    b = replay_bin(profile, backend)
     p = subprocess.run([b], input='\n'.join(lines) + '\n', capture_output=True, text=True, env=dict(ENV, RUST_BACKTRACE='0'))
     outs = [l.split() for l in p.stdout.strip().split('\n') if l.strip()]
     if len(outs) != len(lines):
